@@ -15,6 +15,7 @@ import (
 	"verifharness/drv/fwd"
 	"verifharness/drv/hb"
 	"verifharness/drv/idg"
+	"verifharness/drv/fc"
 	"verifharness/drv/ls"
 	"verifharness/drv/pk"
 	"verifharness/drv/rb"
@@ -88,6 +89,8 @@ func main() {
 		os.Exit(dd.Main(os.Args[2:]))
 	case "ls":
 		os.Exit(ls.Main(os.Args[2:]))
+	case "fc":
+		os.Exit(fc.Main(os.Args[2:]))
 	case "hb":
 		os.Exit(hb.Main(os.Args[2:]))
 	default:
